@@ -356,6 +356,24 @@ pub fn oracle(prop: Prop, case: &Case, st: &mut Stats) -> Verdict {
         st.eval();
         let resp = exchange(&server, raw, *tcp, crate::srvrun::localhost(), &mut buf)?;
         st.class("raw-bytes");
+        if let Some(r) = &resp {
+            if r.len() > 16384 {
+                st.class("response-larger-than-16-KiB");
+                if let Ok(d) = vmodel::wire::decode_message(r) {
+                    // a name inside RDATA written in full, starting at or before offset 16383 and ending beyond it
+                    if d.answers.iter().any(|rr| rr.rdata_names.iter().any(|(off, nd, _)| nd.pointers.is_empty() && *off <= 16383 && *off + nd.name.wire_len() > 16384)) {
+                        st.class("response-with-an-uncompressed-RDATA-name-straddling-offset-16383");
+                    }
+                }
+            }
+            if std::env::var("VERIF_DEBUG_LARGE").is_ok() {
+                eprintln!("raw response: {} octets", r.len());
+                if let Ok(d) = vmodel::wire::decode_message(r) {
+                    let v: Vec<_> = d.answers.iter().flat_map(|rr| rr.rdata_names.iter().map(move |(off, nd, _)| (rr.rtype, *off, nd.name.wire_len(), nd.pointers.len()))).collect();
+                    eprintln!("  rdata names: {v:?}; answers {}", d.answers.len());
+                }
+            }
+        }
         if prop == Prop::C01 {
             if raw.len() >= 12 && raw[2] & 0x80 == 0 {
                 st.nontrivial(&(raw, *tcp), || json!({"raw_request_hex": hex(raw), "tcp": tcp, "responded": resp.is_some()}));
@@ -423,6 +441,66 @@ fn case_strategy(prop: Prop) -> BoxedStrategy<Case> {
     )
         .prop_map(|(catalog, cfg, requests, raw)| Case { catalog, cfg, requests, raw })
         .boxed()
+}
+
+/// Responses larger than 16 KiB (TCP): a node that owns about 16 KiB of NULL data plus MX / PTR
+/// RRsets with multi-label out-of-zone targets, so that names are written around offset
+/// 16383, the largest offset a compression pointer can name.  The filler size is generated,
+/// which sweeps the alignment.
+fn large_case_strategy() -> impl Strategy<Value = Case> {
+    use crate::srvgen::{NameSpec, RdSpec, RecSpec, ZoneSpec};
+    use vmodel::name::MName;
+    // the offset at which the first name after the filler is to start (exact when the filler is
+    // answered first: 12 header + 20 question + 268 per full NULL record + 13 + last + 14)
+    ((16300u32..=16440).prop_map(|t| (((t - 59) / 268) as u8, ((t - 59) % 268).min(255) as u8)), prop::bool::weighted(0.75), 0u8..6, any::<u16>(), prop::collection::vec(prop::collection::vec(prop_oneof![Just(b"mail1".to_vec()), Just(b"mx-one".to_vec()), Just(b"alpha".to_vec()), Just(b"bravo".to_vec()), Just(b"ns".to_vec())], 2..4), 2..4)).prop_map(
+        |((full, last), filler_first, qkind, id, targets)| {
+            let rel = |l: &[&[u8]]| NameSpec::Rel(l.iter().map(|x| x.to_vec()).collect(), 0);
+            let mut recs = vec![
+                RecSpec { owner: rel(&[]), ttl: 300, rd: RdSpec::Soa { minimum: 60, serial: 1 } },
+                RecSpec { owner: rel(&[]), ttl: 300, rd: RdSpec::Single(mr::T_NS, rel(&[b"ns"])) },
+                RecSpec { owner: rel(&[b"ns"]), ttl: 300, rd: RdSpec::A(1) },
+            ];
+            // NULL records: an ANY response lists a node's RRsets by ascending type, so the filler (type 10)
+            // comes before the PTR (12) and MX (15) records
+            let mut filler: Vec<RecSpec> = (0..full).map(|i| RecSpec { owner: rel(&[b"big"]), ttl: 300, rd: RdSpec::Raw(mr::T_NULL, vec![i; 256]) }).collect();
+            filler.push(RecSpec { owner: rel(&[b"big"]), ttl: 300, rd: RdSpec::Raw(mr::T_NULL, vec![200; last as usize + 1]) });
+            let named: Vec<RecSpec> = targets
+                .iter()
+                .enumerate()
+                .map(|(i, t)| RecSpec {
+                    owner: rel(&[b"big"]),
+                    ttl: 300,
+                    rd: if i % 2 == 0 { RdSpec::Mx(10 + i as u16, NameSpec::Abs(t.clone())) } else { RdSpec::Single(mr::T_PTR, NameSpec::Abs(t.clone())) },
+                })
+                .collect();
+            if filler_first {
+                recs.extend(filler);
+                recs.extend(named);
+            } else {
+                recs.extend(named);
+                recs.extend(filler);
+            }
+            let apex = MName { labels: vec![b"large".to_vec(), b"test".to_vec()] };
+            let catalog = CatalogSpec { zones: vec![ZoneSpec { apex: apex.clone(), class: 1, kind: 0, recs }], single: false };
+            let qname = apex.child(b"big");
+            let qtype = match qkind {
+                0..=3 => mr::T_ANY,
+                4 => mr::T_NULL,
+                _ => mr::T_MX,
+            };
+            let mut b = vmodel::wire::Builder::new(id, 0);
+            b.question(&qname, qtype, 1);
+            let plain = b.buf.clone();
+            b.rr(3, &MName::root(), mr::T_OPT, 65535, 0, &[]);
+            let with_opt = b.buf;
+            Case {
+                catalog,
+                cfg: ServerCfg { payload: 65535, keys: Vec::new(), rrl: None },
+                requests: Vec::new(),
+                raw: vec![(plain, true), (with_opt.clone(), true), (with_opt, false)],
+            }
+        },
+    )
 }
 
 fn prop_of(id: &str) -> Prop {
@@ -543,13 +621,18 @@ pub fn run(ctx: &Ctx, report: &mut Report) {
         }
     };
     run_prop(ctx, report, PropSpec { name, cases, max_shrink_iters: 3000 }, move || case_strategy(prop), move |c: &Case, st: &mut Stats| oracle(prop, c, st));
+    if matches!(prop, Prop::C01 | Prop::C02) {
+        // responses beyond 16 KiB
+        let name = if prop == Prop::C01 { "survive-large" } else { "wellformed-large" };
+        run_prop(ctx, report, PropSpec { name, cases: ctx.tier.pick(2_000, 40_000), max_shrink_iters: 300 }, large_case_strategy, move |c: &Case, st: &mut Stats| oracle(prop, c, st));
+    }
 }
 
 pub fn replay(check: &str, case: &serde_json::Value) -> Verdict {
     use crate::fw::replay_case;
     let prop = match check {
-        "survive" => Prop::C01,
-        "wellformed" => Prop::C02,
+        "survive" | "survive-large" => Prop::C01,
+        "wellformed" | "wellformed-large" => Prop::C02,
         "echo" | "header-flag-sweep" => Prop::C03,
         "formerr" => Prop::C08,
         _ => Prop::C09,
